@@ -840,6 +840,17 @@ class TlvModel(metaclass=TlvModelMeta):
                     offset += size_typ
                     length, size_len = parse_tl_num(wire, offset)
                     offset += size_len
+                    while typ != cur_field.value_type.type_num:
+                        # Skip unrecognized non-critical fields between the key and the value
+                        if (typ & 1) == 1 and not ignore_critical:
+                            raise DecodeError(f'a critical field of type {typ} is unrecognized, '
+                                              f'redundant or out-of-order')
+                        offset += length
+                        offset_btl = offset
+                        typ, size_typ = parse_tl_num(wire, offset)
+                        offset += size_typ
+                        length, size_len = parse_tl_num(wire, offset)
+                        offset += size_len
 
                     val = cur_field.parse_value(ret, markers, wire, offset, length, offset_btl)
                     cur_field.__set__(ret, val)
